@@ -16,6 +16,19 @@ CHECKS = {
         note='Trusted: purity of seeded batch generation (C02) for the reference rows; simulator-invocation counter '
              'with max_parallel_batches=1 as the count of consumed batches. Bounded to toy models and small sizes.',
         design_ref='4 C01'),
+    'C03': dict(
+        level='exploration',
+        technique='exhaustive enumeration of model-graph programs (all node kinds, ordered parent tuples, positional/named '
+                  'edges, observations, uses_meta) x requested-output subsets x with_values subsets, each executed through '
+                  'the real compiler/loader/executor with term-recording operations and compared with an independent '
+                  'reference dataflow interpreter',
+        text='All graphs up to 3 nodes (4 in thorough, with stated restrictions per layer) plus a fixed family of 4-6 node '
+             'shapes are generated through model.generate for every output/with_values combination of the layer; value '
+             'terms, observed twins, discrepancy observed tuples, batch_size/random_state/meta placement, rejection of '
+             'stochastic observed data and per-operation call counts must equal the reference.',
+        note='Trusted: the reference interpreter (vmc/ref/c03_ref.py) as the reading of the statement; stated exclusions: '
+             'parallel edges, named edges into Prior/Discrepancy, uses_meta on summaries. Any exception counts as rejection.',
+        design_ref='4 C03'),
     'C04': dict(
         level='model_checking',
         technique='stateless DFS over every completion order / is_ready answer sequence of a scripted client driving '
